@@ -31,6 +31,7 @@ NoTree == [none |-> TRUE]
 LSet(t) == IF IsSized(t) THEN {StaticSize(t)}
            ELSE {MinSize(t) + j * Align(t) : j \in 0..LSteps}
                 \cup {MinSize(t) + LSteps * Align(t) + k : k \in {1, Align(t) \div 2, Align(t) - 1} \ {0}}
+                \cup {RoomyMin(t), RoomyMin(t) + Align(t) + 1}
 
 (***************************************************************************)
 (* Header fields of an image.                                              *)
